@@ -181,6 +181,35 @@ def run(rep, tier):
                                     out.append(f'{o["endpoint"]}: native safe params {keys}, declared {exp} ({r.get("ok")})')
                             return out
                         rep.structural('C09:safe-params-names', f'endpoint {ename}: on success the safe-parameter set has keys {sorted(got)}, declared safe arguments are {sorted(want)}', {'got': sorted(got)}, names_battery)
+            # positive part on error paths: a safe argument that was decoded before the first undecodable one is still recorded
+            # ("once decoded"): arguments are decoded in declaration order, so if argument j is the first undecodable one every
+            # declared-safe argument before j must be in the safe-parameter set of the error response
+            from checks.c19 import corrupted
+            args_ = list(zip(e['args'], params))
+            for (s1, k1, o1, c1) in outs:
+                if k1 != 'err':
+                    continue
+                got = {k for k in o1 if k.startswith('safe_params.')}
+                for j, ((kind, wire, lg, ty, mode), pj) in enumerate(args_):
+                    before_safe = {'safe_params.' + SAFE_ARGS[ename][w] for (kd, w, lg2, t2, m2), _ in args_[:j] if w in SAFE_ARGS[ename]}
+                    missing = before_safe - got
+                    if not missing:
+                        continue
+                    first_bad = z3.And(corrupted(kind, ty, mode, pj), *[z3.Not(corrupted(kd, t2, m2, pp)) for (kd, w, lg2, t2, m2), pp in args_[:j]])
+                    m = dec.decide(f'{ename}:err-path:safe-arguments-before-{wire}-are-recorded', s1, first_bad, missing=sorted(missing))
+                    if m is not None:
+                        op = concrete_request(e, params, m)
+                        op.update({'op': 'endpoint', 'endpoint': ename})
+                        r_, r2_ = replay([op])[0], replay([op], 'release')[0]
+                        rep.replayed += 1
+                        nat = {'safe_params.' + x.split('=', 1)[0] for x in r_.get('safe_params', [])}
+                        nat2 = {'safe_params.' + x.split('=', 1)[0] for x in r2_.get('safe_params', [])}
+                        if not r_.get('ok') and (before_safe - nat) and (before_safe - nat2):
+                            rep.violation('C09:safe-params-on-error', f'endpoint {ename}: argument {wire} is the first undecodable one, the declared-safe arguments decoded before it '
+                                          f'({sorted(before_safe)}) are missing from the safe-parameter set of the error response: native {sorted(nat)}', {'request_a': op, 'request_b': op, 'native_a': r_, 'native_b': r2_})
+                        else:
+                            rep.inconc(f'model mismatch C09 {ename}: safe params {sorted(missing)} missing on the error path of {wire} in the model, native has {sorted(nat)} ({r_.get("ok")})')
+                        break
             rep.extra.setdefault('pairs', {})[ename] = npairs
             if not npairs:
                 rep.inconc(f'vacuity: C09 {ename} compared no pair of outcomes')
